@@ -30,6 +30,10 @@ def _case(draw):
     def sc():
         return 1.0 if draw(st.integers(0, 3)) == 0 else 10.0 ** draw(st.integers(-6, 6))
     d = dims_of(P['faces'])
+    if draw(st.integers(0, 3)) == 0:
+        # whole-number initial field (handed over as an integer array when the case's `_dtype` says so; its rescaled twin
+        # is necessarily floating point): the representation of the numbers is not a unit either
+        P['init'] = np.round(3.0 * np.array(P['init'], float)).tolist()
     return dict(P=P, L=sc(), T=sc(), K=sc(), s=draw(st.sampled_from([-1.0, 2.5, 1e-6, 1e6, 0.0])),
                 seed=draw(st.integers(0, 2 ** 31 - 1)))
 
@@ -106,6 +110,12 @@ def check(case):
     m1, _, phi1 = problem.build_var(P)
     m2, _, phi2 = problem.build_var(Q)
     tag = f"{P['scheme']}:{name}"
+    if P.get('bc_style', 'passed') == 'passed':
+        # the initial state, boundary values included, already obeys the relation (ghost value = f(a/dx, b, c, interior))
+        a0, b0 = np.asarray(phi1._value, float), np.asarray(phi2._value, float) / K
+        if np.all(np.isfinite(a0)) and np.all(np.isfinite(b0)):
+            res.expect_small("rescaled-initial-state", float(np.abs(a0 - b0).max() / max(np.abs(a0).max(), 1e-300)), 1e-9, f"units-initial:{name}",
+                             f"boundary values of the freshly constructed variable in rescaled units (L={L:g}, T={T:g}, K={K:g}) are not K times the original on {name}")
     coefs1, coefs2 = problem.make_coefs(m1, P), problem.make_coefs(m2, Q)
     # the two unit systems are solved through differently scaled matrices: their rounding differs by cond*eps
     cond = problem.step_condition(P)
